@@ -10,7 +10,7 @@ CHECKS = {
     "C13": (
         "translation_validation",
         "bounded-exhaustive enumeration of (grammar, lexer, builder settings) cases, each compiled by the real compile-time builders + rustc and compared with the run-time pipeline on every input up to a length",
-        "The ctrt crate's build script runs the real CTLexerBuilder / CTParserBuilder of the working tree over: the four yacc kinds x two recoverers on two base grammars, every single deviation (thorough: the full product) of serialisation format, Rust edition (2015/2018/2021) and visibility (private, pub, pub(crate), pub(super), pub(self), pub(in path)), a %parse-param case, a family of grammars (empty-production idioms, operator skeletons, the seed grammars) whose generated actions are observers (each action returns an S-expression built from $1..$n with Ok / Err lexemes, $span, $lexer.span_str and a literal $$), and a lexer-centred case (flags in the %grmtools section, exclusive start state with push / pop, skip rules, non-ASCII token name). rustc compiles all generated modules; for every module and every input of up to 3-5 characters over the case's alphabet the generated lexer and parser are compared with LRNonStreamingLexerDef::from_str + set_rule_ids and RTParserBuilder on the same sources: same lexemes, same R_* / N_* constants and token_epp, same value (generic tree, or observer S-expression against run-time recording closures), same errors with the same repair sets. A syntactic inventory of every generated parser fails closed on any shared mutable state other than the one OnceLock.",
+        "The ctrt crate's build script runs the real CTLexerBuilder / CTParserBuilder of the working tree over: the four yacc kinds x two recoverers on two base grammars, every single deviation (thorough: the full product) of serialisation format, Rust edition (2015/2018/2021) and visibility (private, pub, pub(crate), pub(super), pub(self), pub(in path)), a %parse-param case, a family of grammars (empty-production idioms, operator skeletons, the seed grammars) whose generated actions are observers (each action returns an S-expression built from $1..$n with Ok / Err lexemes, $span, $lexer.span_str and a literal $$), a lexer-centred case (flags in the %grmtools section, exclusive start state with push / pop, skip rules, non-ASCII token name) and a lexer-flag family (each of seven flags set to its non-default value once through the %grmtools section and once through the builder). rustc compiles all generated modules; for every module and every input of up to 3-5 characters over the case's alphabet the generated lexer and parser are compared with LRNonStreamingLexerDef::from_str + set_rule_ids and RTParserBuilder on the same sources: same lexemes, same R_* / N_* constants and token_epp, same value (generic tree, or observer S-expression against run-time recording closures), same errors with the same repair sets. A syntactic inventory of every generated parser fails closed on any shared mutable state other than the one OnceLock.",
         "rustc, quote, syn, prettyplease are trusted. Eco cannot be built at compile time. Later errors are compared only while both sides applied the same (arbitrary) first repair.",
         "DESIGN.md 3/C13",
     ),
@@ -24,14 +24,14 @@ CHECKS = {
     "C18": (
         "model_checking",
         "breadth-first search over histories of {edit grammar, edit lexer, change one builder option, build} executed on the real builders (one child process per build), with canonical-state de-duplication and a clean-build differential oracle",
-        "State = grammar version (6: two token sets, other productions, conflicts, syntax error, warning), lexer version (4: two valid, invalid, token missing), eleven builder options, contents and logical modification times of the two generated files. All histories of up to 4 events (thorough 6, with the edit-in-the-same-tick deviation) and up to 3 (4) builds are explored breadth-first, de-duplicated on the canonical state, each build executed by the real CTParserBuilder / CTLexerBuilder in its own process (both as two separate steps and as the lexer builder driving the parser builder). After every build: outcome and generated files (timestamps blanked) must equal those of a clean build of the same sources and settings in an empty directory; when the clean build fails nothing of an earlier version may be left; regenerated() must be false and the file untouched exactly when neither source nor settings changed since the last successful build; an identical lexer output must not be rewritten.",
+        "State = grammar version (6: two token sets, other productions, conflicts, syntax error, warning), lexer version (4: two valid, invalid, token missing), eleven builder options, contents and logical modification times of the two generated files. All histories of up to 4 events (thorough 6, with the edit-in-the-same-tick deviation) and up to 3 (4) builds are explored breadth-first, de-duplicated on the canonical state, each build executed by the real CTParserBuilder / CTLexerBuilder in its own process (both as two separate steps and as the lexer builder driving the parser builder). After every build: outcome and generated files (timestamps blanked) must equal those of a clean build of the same sources and settings in an empty directory; when the clean build fails nothing of an earlier version may be left; regenerated() must be false and the file untouched exactly when neither source nor settings changed since the last successful build; an identical lexer output must not be rewritten. Phase 2 starts from every (grammar, lexer) pair with the reporting options switched off and explores build ; one change ; build, so that caches written under other settings are reached.",
         "Modification times are logical and set by the harness (the builders only read them); clocks running backwards are out of scope.",
         "DESIGN.md 3/C18",
     ),
     "C14": (
         "model_checking",
         "bounded-exhaustive enumeration of specifications x storage widths x integer encodings; serialise + reconstitute exactly as generated parsers do; complete public query dump and all short parses compared",
-        "Every specification of the C10 space on its default layout (every single optional declaration, all together, all five yacc kinds, non-ASCII names and action text) plus a wide family whose bit vectors are 1..2 words long (1, 2, 30-33, 62-65, 127-130, 200, 253, 254 tokens), built with u8, u16 and u32 storage, serialised with the fixed and the variable integer encoding through the very calls the compile-time builder makes and read back through lrpar::ctbuilder::_reconstitute. The complete public query dump (every accessor of the grammar for every index; action, goto, state_actions, state_shifts, core_reduces, reduce_only_state of every state; start state; both conflict lists with their pretty-printed form) must be identical, and so must the result of parsing every input of up to 3-4 lexemes.",
+        "Every specification of the C10 space on its default layout (every single optional declaration, all together, all five yacc kinds, non-ASCII names and action text) plus a wide family whose bit vectors are 1..2 words long (1, 2, 30-33, 62-65, 127-130, 200, 253-257, 300 tokens; precedence levels, %epp and %avoid_insert spread over all of them), built with u8, u16 and u32 storage, serialised with the fixed and the variable integer encoding through the very calls the compile-time builder makes and read back through lrpar::ctbuilder::_reconstitute. The complete public query dump (every accessor of the grammar for every index; action, goto, state_actions, state_shifts, core_reduces, reduce_only_state of every state; start state; both conflict lists with their pretty-printed form) must be identical, and so must the result of parsing every input of up to 3-4 lexemes.",
         "Parses are only compared on (table, input) pairs on which the plain LR loop returns.",
         "DESIGN.md 3/C14",
     ),
@@ -45,7 +45,7 @@ CHECKS = {
     "C10": (
         "model_checking",
         "bounded-exhaustive enumeration of abstract grammar specifications x concrete renderings; every accessor compared with the abstract specification, spans sliced out of the text, digest equal across all renderings",
-        "Abstract specification = grammar (all reachable grammars of a small universe + the seed grammars) x every set of <= 2 of twelve optional declarations (%token, %start, precedence lines, %prec, %epp with escaped quotes, %avoid_insert, %expect, %expect-rr, %expect-unused with an unused rule, %parse-param, %parse-generics, programs section) x five yacc kinds (action types and actions with nested braces and non-ASCII text where the kind has them; %implicit_tokens for Eco). Each is rendered in 135-144 layouts: three quoting styles, six gap styles (blank, newline, tab, // comment, /* */ comment, multi-line comment whose second line starts with a slash), declaration order, %empty, %grmtools header (then parsed with from_str). For every rendering every accessor named in the property is compared with the abstract specification (rule order, productions in source order, symbols, token set and names, dense numbering and range of every index, start production, one unnamed end-of-input token, precedences by relative level, %prec, %epp, avoid-insert, expect counts, action text and types, parse-param, generics, programs, the documented Eco rewrite), every rule / token / production span must slice exactly the defining text, and all renderings of one specification must give the same digest.",
+        "Abstract specification = grammar (all reachable grammars of a small universe + the seed grammars) x every set of <= 2 of twelve optional declarations (%token, %start, precedence lines, %prec, %epp with escaped quotes, %avoid_insert, %expect, %expect-rr, %expect-unused with an unused rule, %parse-param, %parse-generics, programs section) x five yacc kinds (action types and actions with nested braces and non-ASCII text where the kind has them; %implicit_tokens for Eco). Each is rendered in ~200 layouts: three quoting styles, nine gap styles (blank, newline, tab, // comment, /* */ comment, multi-line comment whose second line starts with a slash, /** doc **/, the empty comment /**/, a comment with stars and slashes inside), declaration order, %empty, %grmtools header (then parsed with from_str). For every rendering every accessor named in the property is compared with the abstract specification (rule order, productions in source order, symbols, token set and names, dense numbering and range of every index, start production, one unnamed end-of-input token, precedences by relative level, %prec, %epp, avoid-insert, expect counts, action text and types, parse-param, generics, programs, the documented Eco rewrite), every rule / token / production span must slice exactly the defining text, and all renderings of one specification must give the same digest.",
         "Action code and types are compared modulo comments and whitespace. The action span is only required to lie at its action (the repository's test pins its exact offsets).",
         "DESIGN.md 3/C10",
     ),
@@ -59,7 +59,7 @@ CHECKS = {
     "C09": (
         "model_checking",
         "bounded-exhaustive enumeration of lex specifications x id maps x input strings against a direct maximal-munch reference lexer with a plain state stack",
-        "Every ordered list of up to 3 rules over a 9-regex menu (overlapping, alternation, repetition, multi-byte, dot) with every named/skip assignment; every list of up to 2 (thorough 3) rules over {a, b, ab} x every start-state prefix (none, inclusive, exclusive, both, INITIAL) x every target operation (none, replace, push, pop on inclusive/exclusive/INITIAL) x named/skip; every subset of {case_insensitive, !dot_matches_new_line, !multi_line} on a flag-sensitive menu; each against every input string up to length 5-6 over an alphabet with a two-byte character and a newline. The whole lexeme / error sequence is compared with a reference that re-implements rule activation, longest match, earliest rule on ties, push / pop / replace on a plain (not run-length) stack and the single error at the first unmatched position. set_rule_ids is run with every map over subsets of the rule names plus a foreign name and its two result sets and the subsequent lexing are compared.",
+        "Every ordered list of up to 3 rules over a 9-regex menu (overlapping, alternation, repetition, multi-byte, dot) with every named/skip assignment; every list of up to 2 (thorough 3) rules over {a, b, ab} x every start-state prefix (none, inclusive, exclusive, both, INITIAL) x every target operation (none, replace, push, pop on inclusive/exclusive/INITIAL) x named/skip; every three-rule stack-operation specification (push / replace / pop incl. pushing the bottom state onto itself) ; every subset of {case_insensitive, !dot_matches_new_line, !multi_line} on a flag-sensitive menu; each against every input string up to length 5-6 over an alphabet with a two-byte character and a newline. The whole lexeme / error sequence is compared with a reference that re-implements rule activation, longest match, earliest rule on ties, push / pop / replace on a plain (not run-length) stack and the single error at the first unmatched position. set_rule_ids is run with every map over subsets of the rule names plus a foreign name and its two result sets and the subsequent lexing are compared.",
         "The meaning of each regular expression is the regex crate's on both sides. Result order of set_rule_ids as pinned by the repository's own test.",
         "DESIGN.md 3/C09",
     ),
@@ -80,7 +80,7 @@ CHECKS = {
     "C08": (
         "model_checking",
         "bounded-exhaustive enumeration of grammars x inputs x {recovery off, on}; parse_actions with recording closures checked against the post-order of the returned value",
-        "Every grammar of the universes, the empty-production family (empty productions first / middle / last / only, nested) and the seed grammars, every input up to the bound, with recovery off and (on conflict-free productive tables) on, so that both copies of the reduce code run: one recording closure per production logs production, rule argument, span, argument kinds/values and parameter. From the returned value the expected log is recomputed: exactly one call per tree node in bottom-up left-to-right order, arguments = children in order and of the right kind, span = extent of the derived lexemes (zero-length if none), parameter as passed, and the action-built tree equals parse_map's generic tree.",
+        "Every grammar of the universes, the empty-production families (empty productions first / middle / last / only, nested; an empty rule followed by a token followed by more input, so that repairs are inserted right after a zero-length reduction) and the seed grammars, every input up to the bound, with recovery off and (on conflict-free productive tables) on, so that both copies of the reduce code run: one recording closure per production logs production, rule argument, span, argument kinds/values and parameter. From the returned value the expected log is recomputed: exactly one call per tree node in bottom-up left-to-right order, arguments = children in order and of the right kind, span = extent of the derived lexemes (zero-length if none), parameter as passed, and the action-built tree equals parse_map's generic tree.",
         "A span may count or ignore inserted (zero-length, faulty) lexemes at its ends; a production that derived nothing may put its zero-length span anywhere. Tree comparison is skipped (and counted) when the two runs applied different equal-rank repairs.",
         "DESIGN.md 3/C08",
     ),
@@ -115,21 +115,21 @@ CHECKS = {
     "C02": (
         "model_checking",
         "bounded-exhaustive enumeration of LR(1) grammars x token strings; Pager-minimised automaton vs an independent canonical LR(1) construction and parser",
-        "For every grammar of the universes, the LR(1)-not-LALR(1) family (all subsets of the classic counter-example and two variants), the seed grammars and their complete edit-distance-1 neighbourhood whose canonical LR(1) automaton is conflict-free: the real construction must report no conflicts and no more states than the canonical automaton, and for every input up to the bound the real parser and the canonical LR(1) parser must return the same tree or fail at the same lexeme.",
+        "For every grammar of the universes, the LR(1)-not-LALR(1) families (all subsets of the classic counter-example and two variants; every 3-6 production subset of {x,y} {A,B} {a,b,c} with three suffix tokens in both rule orders, so that weakly-compatible, incompatible and subset contexts all occur), the seed grammars and their complete edit-distance-1 neighbourhood whose canonical LR(1) automaton is conflict-free: the real construction must report no conflicts and no more states than the canonical automaton, and for every input up to the bound the real parser and the canonical LR(1) parser must return the same tree or fail at the same lexeme.",
         "Late merges that need longer propagation chains than these grammars contain are outside the bound.",
         "DESIGN.md 3/C02",
     ),
     "C04": (
         "model_checking",
         "bounded-exhaustive enumeration of conflict-free productive grammars x rejected inputs; error position vs Earley viable-prefix oracle",
-        "For every conflict-free table of a grammar whose rules are all productive and every rejected input up to the bound: with recovery off the result must be no value and exactly one error at the first lexeme (or the synthetic end-of-input lexeme, placed at the end of the last lexeme) where the input stops being a viable prefix according to the Earley oracle; with CPCT+ on, the first error must be at the same lexeme.",
+        "For every conflict-free table of a grammar (universes, families incl. unit / nullable chains of depth 1-4 in both definition orders, seeds, neighbourhoods) whose rules are all productive and every rejected input up to the bound: with recovery off the result must be no value and exactly one error at the first lexeme (or the synthetic end-of-input lexeme, placed at the end of the last lexeme) where the input stops being a viable prefix according to the Earley oracle; with CPCT+ on, the first error must be at the same lexeme.",
         "Viable-prefix oracle = Earley on the productive-pruned grammar, validated against brute-force prefix enumeration.",
         "DESIGN.md 3/C04",
     ),
     "C03": (
         "model_checking",
         "bounded-exhaustive enumeration of grammars x precedence configurations; every (state, token) cell re-derived from the item sets by an independent oracle",
-        "Every grammar of the listed universes and of the operator-skeleton family, under every precedence declaration of <= 2 lines and every single %prec placement, is built with the real table constructor; for every state and token the expected action is re-derived from the closed item sets, the edges and the generator's own precedence model, and the shift/reduce and reduce/reduce lists are compared as multisets with the cells settled by the two default rules; accept/reduce failures are compared with a canonical LR(1) construction.",
+        "Every grammar of the listed universes, of the operator-skeleton family and of the two-token-production family (ternary / mixfix skeletons, where the last token of a production and the token carrying a precedence differ), under every precedence declaration of <= 2 lines and every single %prec placement, is built with the real table constructor; for every state and token the expected action is re-derived from the closed item sets, the edges and the generator's own precedence model, and the shift/reduce and reduce/reduce lists are compared as multisets with the cells settled by the two default rules; accept/reduce failures are compared with a canonical LR(1) construction.",
         "Item sets and edges are taken as given here (C01/C02/C16 check them). At most 3 precedence levels / 3-way reduce-reduce inside the universes.",
         "DESIGN.md 3/C03",
     ),
